@@ -42,6 +42,7 @@ LEVEL_TEXT = (
     "rooted trees are transferred to a GenericConcreteEngine subclass that has no payloads for trivial leaves and chained "
     "with its doomed leaf; process() must prune the chain to the processed transfer, whose payload holds the rows."
     "  Statically empty trees below a materialization in an engine without payloads for doomed relations must be processed without error."
+    "  A processed tree rooted in a payload-carrying transfer is materialized and processed again: unless a hook call declared a payload suitable for caching, the new materialization must not simply adopt the transfer's payload."
 )
 LEVEL_NOTE = "trusts: harness Processor subclass (vf/core/proc.py) is truthful; ev_multi labels; SQLite; P1, P4, P8"
 RULE = (
@@ -199,6 +200,35 @@ def refine_processed(prog, leaves, universe, result, env, proc, stats, ctx):
     if fresh:
         expr = ("ref", cols[0])
         requests.append(("calc", ("calc", prog, fresh[0], expr), lambda r, **o: r.with_calculated_column(fresh[0], lib_e(expr), **o)))
+    # the processed tree materialized and processed again: a payload that process() attached to a transfer is only known
+    # to be suitable for caching if the transfer hook was told so (materialize_as); for a new materialization on top of
+    # it some hook call must have declared its payload cache-suitable - the materialize hook, or a transfer hook called
+    # with this name - unless the relation is statically trivial
+    from lsst.daf.relation import Materialization, Transfer
+
+    if isinstance(result, Transfer) and result.payload is not None and result.max_rows != 0 and not result.is_join_identity:
+        was_cache_suitable = any(h == "transfer" and n is not None and r is result.target for h, r, d, n in proc.log)
+        name = f"again_{len(proc.log)}"
+        try:
+            again = proc.process(result.materialized(name=name))
+            got = execute_processed(env, again)
+            got2 = execute_processed(env, again)
+        except Exception as e:
+            if not isinstance(e, DatabaseError):
+                raise Violation("refined-tree-not-executable", f"materialized() of the processed tree, process() + execute raised {type(e).__name__}: {str(e)[:300]}; processed {str(result)[:300]}; {ctx}", sig=exc_sig(e))
+        else:
+            declared = any(n == name and i in proc.completed for i, (h, r, d, n) in enumerate(proc.log))
+            if not declared and not was_cache_suitable and any(isinstance(n, Materialization) and n.name == name for n in lib_nodes(again)):
+                raise Violation(
+                    "materialization-adopted-uncached-payload",
+                    f"materialized(name={name!r}) of a processed tree whose root transfer carries a payload no hook declared suitable for caching: process() made no materialize / materializing-transfer hook call for it; processed {str(result)[:300]}; {ctx}",
+                )
+            truth = ev_multi(prog, leaves)
+            for k, rows in enumerate((got, got2)):
+                bad = compare(truth, rows)
+                if bad:
+                    raise Violation("refined-rows-differ", f"materialized() of the processed tree, evaluation #{k}: {bad}; processed {str(result)[:300]}; {ctx}")
+            stats.c["refine:materialize-processed"] += 1
     # the processed tree chained with itself, evaluated twice (whatever evaluating the chain does with the payloads that
     # process() attached - possibly lazy iterables - must not show in the second evaluation)
     if not is_order_loss_root(result):
